@@ -216,7 +216,15 @@ func (w *World) executor(op *Op) (failsafe.Executor[R], context.Context) {
 			w.log.add(e)
 		}
 	}
-	ex = ex.OnSuccess(done(LExecSuccess)).OnFailure(done(LExecFailure)).OnDone(done(LExecDone))
+	if op.NoExecListeners&1 == 0 {
+		ex = ex.OnSuccess(done(LExecSuccess))
+	}
+	if op.NoExecListeners&2 == 0 {
+		ex = ex.OnFailure(done(LExecFailure))
+	}
+	if op.NoExecListeners&4 == 0 {
+		ex = ex.OnDone(done(LExecDone))
+	}
 	var ctx context.Context
 	switch op.Ctx {
 	case CtxBackground:
